@@ -462,10 +462,54 @@ def compress(a, mask, lineno=None):
 
 
 def flatnonzero_facts(mask):
-    """Skolem functions for np.flatnonzero(mask): pos (rank -> position), rank (position -> rank)."""
+    """Skolem functions for np.flatnonzero(mask): pos (rank -> position) and the count of true elements.
+    One (pos, count) per mask CONTENT: a second np.flatnonzero / boolean indexing with the same (unmodified) mask selects the same
+    positions.  A mask that is a concatenation is handled part by part: nz(a ++ b) = nz(a) ++ (nz(b) + |a|)  (the definition of
+    flatnonzero on a concatenation; validated by the engine self-check)."""
     c = ctx()
     fm = mask.snapshot()
     n = mask.length
+    cache = c.ghost.setdefault("nz_cache", {})
+    key = (id(fm), z3.simplify(I(n)).get_id())
+    if key in cache:
+        return cache[key][:2]
+    parts = getattr(mask, "concat_parts", None)
+    if parts is not None and len(parts) >= 2 and getattr(mask, "start", 0) == 0 and getattr(mask, "step", 1) == 1:
+        use("flatnonzero of a concatenation = concatenation of the parts' flatnonzeros, shifted")
+        sub, off = [], 0
+        for p in parts:
+            pp, mm = flatnonzero_facts(p)
+            sub.append((pp, mm, off))
+            off = conc(I(off) + I(p.length))
+        total = 0
+        starts = []
+        for pp, mm, o in sub:
+            starts.append(total)
+            total = conc(I(total) + I(mm))
+
+        def pos(t, sub=sub, starts=starts):
+            pp, mm, o = sub[-1]
+            r = I(o) + I(pp(I(t) - I(starts[-1])))
+            for k in range(len(sub) - 2, -1, -1):
+                pp, mm, o = sub[k]
+                r = Ite(I(t) < I(starts[k + 1]), I(o) + I(pp(I(t) - I(starts[k]))), r)
+            return r
+        cache[key] = (pos, total, fm)
+        return pos, total
+    cn = conc(n)
+    if isinstance(cn, int) and cn <= 8 and all(isinstance(conc(B(fm(i))), bool) for i in range(cn)):
+        hits = [i for i in range(cn) if conc(B(fm(i))) is True]
+
+        def pos(t, hits=hits):
+            ct = conc(t)
+            if isinstance(ct, int):
+                return hits[ct] if 0 <= ct < len(hits) else 0
+            r = z3.IntVal(hits[-1]) if hits else z3.IntVal(0)
+            for j in range(len(hits) - 2, -1, -1):
+                r = z3.If(I(t) == j, z3.IntVal(hits[j]), r)
+            return r
+        cache[key] = (pos, len(hits), fm)
+        return pos, len(hits)
     pos = c.fresh_fun("nzpos")
     rank = c.fresh_fun("nzrank")
     m = c.fresh_int("nzcount")
@@ -484,6 +528,7 @@ def flatnonzero_facts(mask):
     # engine lemma L2/L4: strictly increasing adjacent => monotone
     from .core import PairForall
     c.assume(PairForall(pos, lambda a, b: Implies(And(in_range(a, m), in_range(b, m), a <= b), pos(a) <= pos(b)), name="flatnonzero.pos monotone"))
+    cache[key] = (pos, m, fm)
     return pos, m
 
 
